@@ -45,9 +45,18 @@ def check(ctx):
         # node-level counterexamples: replay the known symptom sessions (false mate announcements after a fully pruned node)
         out = sc.uci_session(ctx, exe, ['position fen 8/4k3/p7/P7/PP4KN/8/8/8 w - - 0 1', 'go depth 4'], wait=4.0)
         false_mate = re.findall(r'score mate (-?\d+)', out)
-        path = report.save_replay(ctx, r.q.name, {'harness': r.q.name, 'node': ce, 'native_info_lines': [l for l in out.split('\n') if l.startswith('info')][:6]})
+        # ... and positions whose mate distance is known (the mating line ends with captures, so it runs through quiescence nodes)
+        KNOWN = [('r5k1/5ppp/8/8/8/8/4Q3/4R1K1 w - - 0 1', 2), ('4r1k1/4q3/8/8/8/8/5PPP/R5K1 b - - 0 1', 2), ('6k1/5ppp/8/8/8/8/8/R3K2R w - - 0 1', 1)]
+        wrong = []
+        for fen, want in KNOWN:
+            for d in (1, 2, 3):
+                o = sc.uci_session(ctx, exe, ['position fen ' + fen, 'go depth %d' % d], wait=1.5)
+                for mm in re.findall(r'score mate (-?\d+)', o):
+                    if int(mm) != want: wrong.append('%s depth %d: announced mate %s, true distance %d' % (fen, d, mm, want))
+        if wrong: false_mate = false_mate + wrong[:3]
+        path = report.save_replay(ctx, r.q.name, {'harness': r.q.name, 'node': ce, 'native_info_lines': [l for l in out.split('\n') if l.startswith('info')][:6], 'known-distance positions announced wrongly': wrong})
         return {'confirmed': True if false_mate else None, 'strict': True, 'key': 'node-' + re.sub(r'[^a-z0-9]+', '-', (r.failed[0][1] if r.failed else '').lower())[:40], 'path': path,
-                'text': '%s: %s | node %s | native 8/4k3/p7/P7/PP4KN/8/8/8 w go depth 4 announces mate: %s' % (r.q.name, '; '.join(d for _, d in r.failed[:2]), {k: ce.get(k) for k in ('ce_depth', 'ce_alpha', 'ce_beta', 'ce_result', 'ce_nlist', 'ce_incheck', 'ce_nchildren')}, false_mate)}
+                'text': '%s: %s | node %s | native: false/wrong mate announcements (8/4k3/p7/P7/PP4KN/8/8/8 w depth 4; three positions of known mate distance, depth 1..3): %s' % (r.q.name, '; '.join(d for _, d in r.failed[:2]), {k: ce.get(k) for k in ('ce_depth', 'ce_alpha', 'ce_beta', 'ce_result', 'ce_nlist', 'ce_incheck', 'ce_nchildren')}, false_mate)}
     return report.finish(ctx, res, wit, replay=replay,
         assumptions=sc.ASSUME_B + ['C08 is claimed as an inductive step only: (i) values stay in [-VALUE_MATE, VALUE_MATE] (no +-infinity that a parent would read as a mate), (ii) a node without legal moves returns lost_in(0) only when in check, '
                                    '(iii) at the root a mating move (its child returns lost_in(0); it gives check) becomes PV head with value win_in(1) for every ordering and every value of the other moves, with a table miss, '
